@@ -381,6 +381,34 @@ def traced_walk(cls, root, ids, tids, args=(), kw=None, method='visit', timeout=
     return dict(events=events, rets=rets, result=res, single=bool(v.single_visit))
 
 
+def trace_discipline(events, single):
+    """The documented contract of the walk, checked on a recorded callback trace: in/out are properly nested,
+    on_cycle(node, path) is called with the nodes entered and not yet exited and node is one of them, no node is
+    entered while it is on the path, a single-visit walk enters no node twice.  Returns None or a message."""
+    stack = []
+    entered = set()
+    for k, e in enumerate(events):
+        if e[0] == 'in':
+            if e[1] in stack:
+                return 'event %d: node %d entered while on the path %r (a loop)' % (k, e[1], stack)
+            if single and e[1] in entered:
+                return 'event %d: single-visit walk entered node %d twice' % (k, e[1])
+            entered.add(e[1])
+            stack.append(e[1])
+        elif e[0] == 'out':
+            if not stack or stack[-1] != e[1]:
+                return 'event %d: out(%d) does not match the innermost entered node (path %r)' % (k, e[1], stack)
+            stack.pop()
+        elif e[0] == 'cycle':
+            if list(e[2]) != stack:
+                return 'event %d: on_cycle received path %r, the nodes entered and not exited are %r' % (k, e[2], stack)
+            if e[1] not in stack:
+                return 'event %d: on_cycle(%d) but the node is not on the path %r' % (k, e[1], stack)
+    if stack:
+        return 'walk ended with nodes still entered: %r' % stack
+    return None
+
+
 def derivation_end(t, i, rules, terms, units, dynamic):
     """t: unshaped ambiguity-free tree (nested tuples); position after t when it is a derivation starting at i
     of the compiled grammar over the input, else None"""
